@@ -99,6 +99,9 @@ def replay(w, src):
         def fresh_bool(self, prefix="b"):
             return bool(values.get(self.fresh_name(prefix), False))
 
+        def named_real(self, name):
+            return float(values.get(name, Fraction(0)))
+
         def fresh(self, sort, prefix="k"):
             n = self.fresh_name(prefix)
             if sort == z3.RealSort():
